@@ -152,6 +152,7 @@ def expected(model, stem, prefix):
                     exp["py"]["names"].add(m)
                 else:
                     exp["c"].setdefault("ordered_macros", []).append([U.rstrip("_")] * bool(U) + [upper_snake(p) for p in path] + [m])
+                    exp.setdefault("nested_members", []).append((list(path), m))
         elif k == "msg":
             flat = "".join(path) + d[1]
             cname = P + flat
@@ -178,6 +179,20 @@ def upper_snake_prefixed(prefix, flat):
         return upper_snake(flat)
     words = [w for w in prefix.split("_") if w]
     return "_".join([w.upper() for w in words] + [upper_snake(flat)])
+
+
+def names_nested_member(name, path, member):
+    """`name` = the enclosing names, each verbatim or in UPPER_SNAKE (words kept apart), in order, followed by the member's own name."""
+    if not name.endswith(member):
+        return False
+    head, pos = name[:len(name) - len(member)], 0
+    for p in path:
+        hits = [(head.find(v, pos), len(v)) for v in (p, upper_snake(p)) if head.find(v, pos) >= 0]
+        if not hits:
+            return False
+        k, n = min(hits)
+        pos = k + n
+    return True
 
 
 def contains_in_order(name, parts):
@@ -274,6 +289,9 @@ def run_unit(unit):
                     for parts in exp["c"].get("ordered_macros", []):
                         if not any(contains_in_order(mname, parts) for mname in macros):
                             viol("c-names", "nested_member_macro", "no macro names %s in that order; header has %s" % (parts, sorted(macros)), lang)
+                    for npath, mem in exp.get("nested_members", []):
+                        if not any(names_nested_member(mname, npath, mem) and mname.startswith((prefix or "").upper()) for mname in macros):
+                            viol("c-names", "nested_member_name", "no macro is named by %s (verbatim or UPPER_SNAKE) followed by %s; header has %s" % (npath, mem, sorted(macros)), lang)
                     want_funcs = set(exp["c"]["funcs"]) | (set() if optimize else exp["c"]["std_only_funcs"])
                     if funcs != want_funcs:
                         viol("c-names", "functions", "declared %s expected %s" % (sorted(funcs), sorted(want_funcs)), lang)
@@ -342,6 +360,9 @@ def run_unit(unit):
                     for en, members in exp["py"]["enums"].items():
                         if en not in o["enums"] or (members is not None and o["enums"][en] != members):
                             viol("py-names", "enum", "enum %s %s expected; module has %s" % (en, members, o["enums"]), "py")
+                    for npath, mem in exp.get("nested_members", []):
+                        if not any(names_nested_member(n2, npath, mem) for n2 in o["names"]):
+                            viol("py-names", "nested_member_name", "no module-level name is named by %s (verbatim or UPPER_SNAKE) followed by %s; module has %s" % (npath, mem, sorted(o["names"])), "py")
                     if not exp["py"]["names"] <= set(o["names"]):
                         viol("py-names", "constants_aliases_members", "%s missing from module names" % sorted(exp["py"]["names"] - set(o["names"])), "py")
                 base = cache.get((sname, perm, None, "py"))
@@ -377,6 +398,9 @@ def run_unit(unit):
                         viol("go-names", "types", "%s missing" % sorted(exp["go"]["types"] - set(m.types)), lang)
                     if not exp["go"]["consts"] <= gconsts:
                         viol("go-names", "consts", "%s missing" % sorted(exp["go"]["consts"] - gconsts), lang)
+                    for npath, mem in exp.get("nested_members", []):
+                        if not any(names_nested_member(n2, npath, mem) for n2 in gconsts):
+                            viol("go-names", "nested_member_name", "no constant is named by %s (verbatim or UPPER_SNAKE) followed by %s; consts %s" % (npath, mem, sorted(gconsts)), lang)
                     for po in exp["go"]["path_orders"]:
                         parts = po[1]
                         cands = [n for n in m.types if contains_in_order(n, parts) and n.lower().replace("_", "").endswith(parts[-1].lower())]
